@@ -17,7 +17,13 @@ PROP = {'level': 'proof',
          'byte value 0..=255 at both ends in 9 shapes, every char up to U+00FF and several Unicode spaces at '
          'both ends of a str, every string over {space,tab,LF,VT,FF,CR,x} up to length 4 (5), form-feed '
          'inputs that failed before cebbc85 first; then 3000 (20000) seeded random inputs built from needle '
-         'repetitions with partial repetitions next to them, and random whitespace padding.',
+         'repetitions with partial repetitions next to them, and random whitespace padding. A second seeded '
+         'stream of LARGE cases (150 / 1 500 pattern cases + 400 / 4 000 whitespace cases, ~4 800 / 48 000 '
+         'requests): needles of 3..=12 letters (random or with internal periodicity) over the five C04 '
+         'alphabets, haystack = needle^k1 + partial repetition + middle + partial repetition + needle^k2 '
+         'with k up to 12, array patterns up to [u8; 24]; whitespace runs of 10..=40 bytes at both ends '
+         'mixing the five ASCII whitespace bytes with every byte of 00..=20, 7F, 85, A0 (also as the chars '
+         'U+0085/U+00A0).',
  'explanation': 'Theorems (Props/C05.lean) state model = std specification for all inputs; the transcript '
                 'ties the model to the code and the specification to the real std '
                 '(<[u8]>::strip_prefix/strip_suffix/starts_with/ends_with/trim_ascii*, '
